@@ -11,11 +11,13 @@ pub mod c08;
 pub mod c09;
 pub mod c10;
 pub mod c11;
+pub mod c12;
 pub mod c13;
 pub mod c14;
 pub mod c15;
 pub mod c16;
 pub mod c17;
+pub mod c18;
 pub mod c19;
 
 pub const ALL: [&str; 19] = [
@@ -36,11 +38,13 @@ pub fn get(id: &str, tier: Tier) -> Option<CheckDef> {
         "C09" => c09::def(tier),
         "C10" => c10::def(tier),
         "C11" => c11::def(tier),
+        "C12" => c12::def(tier),
         "C13" => c13::def(tier),
         "C14" => c14::def(tier),
         "C15" => c15::def(tier),
         "C16" => c16::def(tier),
         "C17" => c17::def(tier),
+        "C18" => c18::def(tier),
         "C19" => c19::def(tier),
         _ => return None,
     })
